@@ -464,10 +464,28 @@ HARNESS_COMMON = r'''
 #include "au/prefix.hh"
 #include "au/quantity_point.hh"
 %(unit_includes)s
+#include <csetjmp>
+#include <csignal>
 typedef __int128 i128;
 typedef void (*Fn)(int, char**, std::string&);
 struct Entry { int id; Fn pt; Fn sweep; };
 extern volatile long g_ub;
+// Trap robustness: every evaluated input runs inside `guarded`; a SIGFPE / SIGILL / SIGSEGV / SIGBUS raised by the
+// library code longjmps back, the input is reported as `trap` and the harness goes on with the next input.
+extern sigjmp_buf g_jb;
+extern volatile sig_atomic_t g_in;
+extern volatile long g_traps;
+template <class F> static bool guarded(F f) {
+    if (sigsetjmp(g_jb, 1)) { g_in = 0; g_traps = g_traps + 1; return false; }
+    g_in = 1; f(); g_in = 0;
+    return true;
+}
+// one token of a P answer: the body's output, or `trap`
+template <class F> static void token(std::string& o, F f) {
+    const size_t mark = o.size();
+    if (!guarded(f)) { o.resize(mark); o += "trap"; }
+    o += " ";
+}
 
 template <class T, class E = void> struct IO;
 template <> struct IO<float> {
@@ -542,19 +560,20 @@ struct RoundBase {
     static_assert(std::is_same<decltype(au::ceil_as<Out>(Tgt{}, Q{})), au::Quantity<Tgt, Out>>::value, "ceil_as<Out> unit");
     static void pt(int argc, char** argv, std::string& o) {
         for (int i = 0; i < argc; ++i) {
-            R x = IO<R>::parse(argv[i]);
-            Q q = au::make_quantity<U>(x);
-            RR r = au::round_in(Tgt{}, q), f = au::floor_in(Tgt{}, q), c = au::ceil_in(Tgt{}, q);
-            bool as_ok = same(au::round_as(Tgt{}, q).in(Tgt{}), r) && same(au::floor_as(Tgt{}, q).in(Tgt{}), f) &&
-                         same(au::ceil_as(Tgt{}, q).in(Tgt{}), c);
-            putc(o, r); putc(o, f); putc(o, c); putc(o, as_ok);
-            long u0 = g_ub; Out ro = au::round_in<Out>(Tgt{}, q); long u1 = g_ub;
-            Out fo = au::floor_in<Out>(Tgt{}, q); long u2 = g_ub;
-            Out co = au::ceil_in<Out>(Tgt{}, q); long u3 = g_ub;
-            bool aso = same(au::round_as<Out>(Tgt{}, q).in(Tgt{}), ro) && same(au::floor_as<Out>(Tgt{}, q).in(Tgt{}), fo) &&
-                       same(au::ceil_as<Out>(Tgt{}, q).in(Tgt{}), co);
-            putc(o, ro); putc(o, u1 - u0); putc(o, fo); putc(o, u2 - u1); putc(o, co); putc(o, u3 - u2); put(o, aso || (u3 != u0));
-            o += " ";
+            token(o, [&] {
+                R x = IO<R>::parse(argv[i]);
+                Q q = au::make_quantity<U>(x);
+                RR r = au::round_in(Tgt{}, q), f = au::floor_in(Tgt{}, q), c = au::ceil_in(Tgt{}, q);
+                bool as_ok = same(au::round_as(Tgt{}, q).in(Tgt{}), r) && same(au::floor_as(Tgt{}, q).in(Tgt{}), f) &&
+                             same(au::ceil_as(Tgt{}, q).in(Tgt{}), c);
+                putc(o, r); putc(o, f); putc(o, c); putc(o, as_ok);
+                long u0 = g_ub; Out ro = au::round_in<Out>(Tgt{}, q); long u1 = g_ub;
+                Out fo = au::floor_in<Out>(Tgt{}, q); long u2 = g_ub;
+                Out co = au::ceil_in<Out>(Tgt{}, q); long u3 = g_ub;
+                bool aso = same(au::round_as<Out>(Tgt{}, q).in(Tgt{}), ro) && same(au::floor_as<Out>(Tgt{}, q).in(Tgt{}), fo) &&
+                           same(au::ceil_as<Out>(Tgt{}, q).in(Tgt{}), co);
+                putc(o, ro); putc(o, u1 - u0); putc(o, fo); putc(o, u2 - u1); putc(o, co); putc(o, u3 - u2); put(o, aso || (u3 != u0));
+            });
         }
     }
 };
@@ -571,7 +590,9 @@ template <class R, class U, class Tgt, class Out> struct RoundSweep<R, U, Tgt, O
         long double ratio = strtold(argv[6], nullptr);
         unsigned long long hr = 0, hf = 0, hc = 0; long n = 0, bad = 0, bad_as = 0; std::string first = "-", what = "-";
         for (long long xx = lo; xx <= hi; ++xx) {
-            R x = static_cast<R>(xx); Q q = au::make_quantity<U>(x); ++n;
+          ++n;
+          if (!guarded([&] {
+            R x = static_cast<R>(xx); Q q = au::make_quantity<U>(x);
             double r = au::round_in(Tgt{}, q), f = au::floor_in(Tgt{}, q), c = au::ceil_in(Tgt{}, q);
             unsigned long long w = (unsigned long long)(xx - lo + 1);
             hash_add(hr, code_of(r), w); hash_add(hf, code_of(f), w); hash_add(hc, code_of(c), w);
@@ -597,6 +618,7 @@ template <class R, class U, class Tgt, class Out> struct RoundSweep<R, U, Tgt, O
                 else if (!(roundl(E - d) <= r && r <= roundl(E + d))) w_bad = "round";
             }
             if (w_bad) { if (!bad++) { first = std::to_string(xx); what = w_bad; } }
+          })) { if (!bad++) { first = std::to_string(xx); what = "trap"; } }
         }
         char b[256];
         snprintf(b, sizeof b, "n=%%ld hr=%%llu hf=%%llu hc=%%llu bad=%%ld first=%%s what=%%s bad_as=%%ld", n, hr, hf, hc, bad, first.c_str(), what.c_str(), bad_as);
@@ -617,19 +639,20 @@ struct RoundPointInst {
     static_assert(std::is_same<decltype(au::floor_as<Out>(Tgt{}, P{})), au::QuantityPoint<Tgt, Out>>::value, "floor_as<Out> unit (point)");
     static void pt(int argc, char** argv, std::string& o) {
         for (int i = 0; i < argc; ++i) {
-            R x = IO<R>::parse(argv[i]);
-            P p = au::make_quantity_point<U>(x);
-            RR r = au::round_in(Tgt{}, p), f = au::floor_in(Tgt{}, p), c = au::ceil_in(Tgt{}, p);
-            bool as_ok = same(au::round_as(Tgt{}, p).in(Tgt{}), r) && same(au::floor_as(Tgt{}, p).in(Tgt{}), f) &&
-                         same(au::ceil_as(Tgt{}, p).in(Tgt{}), c);
-            putc(o, r); putc(o, f); putc(o, c); putc(o, as_ok);
-            long u0 = g_ub; Out ro = au::round_in<Out>(Tgt{}, p); long u1 = g_ub;
-            Out fo = au::floor_in<Out>(Tgt{}, p); long u2 = g_ub;
-            Out co = au::ceil_in<Out>(Tgt{}, p); long u3 = g_ub;
-            bool aso = same(au::round_as<Out>(Tgt{}, p).in(Tgt{}), ro) && same(au::floor_as<Out>(Tgt{}, p).in(Tgt{}), fo) &&
-                       same(au::ceil_as<Out>(Tgt{}, p).in(Tgt{}), co);
-            putc(o, ro); putc(o, u1 - u0); putc(o, fo); putc(o, u2 - u1); putc(o, co); putc(o, u3 - u2); put(o, aso || (u3 != u0));
-            o += " ";
+            token(o, [&] {
+                R x = IO<R>::parse(argv[i]);
+                P p = au::make_quantity_point<U>(x);
+                RR r = au::round_in(Tgt{}, p), f = au::floor_in(Tgt{}, p), c = au::ceil_in(Tgt{}, p);
+                bool as_ok = same(au::round_as(Tgt{}, p).in(Tgt{}), r) && same(au::floor_as(Tgt{}, p).in(Tgt{}), f) &&
+                             same(au::ceil_as(Tgt{}, p).in(Tgt{}), c);
+                putc(o, r); putc(o, f); putc(o, c); putc(o, as_ok);
+                long u0 = g_ub; Out ro = au::round_in<Out>(Tgt{}, p); long u1 = g_ub;
+                Out fo = au::floor_in<Out>(Tgt{}, p); long u2 = g_ub;
+                Out co = au::ceil_in<Out>(Tgt{}, p); long u3 = g_ub;
+                bool aso = same(au::round_as<Out>(Tgt{}, p).in(Tgt{}), ro) && same(au::floor_as<Out>(Tgt{}, p).in(Tgt{}), fo) &&
+                           same(au::ceil_as<Out>(Tgt{}, p).in(Tgt{}), co);
+                putc(o, ro); putc(o, u1 - u0); putc(o, fo); putc(o, u2 - u1); putc(o, co); putc(o, u3 - u2); put(o, aso || (u3 != u0));
+            });
         }
     }
     static void sweep(int, char**, std::string& o) { o += "unsupported"; }
@@ -646,8 +669,9 @@ template <class R, class U, class Tgt> struct InvSweep<R, U, Tgt, true> {
         if (argc < 1) { o += "bad"; return; }
         unsigned long long K = strtoull(argv[0], nullptr, 10);
         long nmax = 1000; if ((unsigned long long)std::numeric_limits<R>::max() < 1000ull) nmax = (long)std::numeric_limits<R>::max();
-        long n_done = 0, bad_val = 0, bad_rt = 0, ub = 0; std::string first_val = "-", first_rt = "-";
+        long n_done = 0, bad_val = 0, bad_rt = 0, ub = 0, traps = 0; std::string first_val = "-", first_rt = "-", first_trap = "-";
         for (long n = 1; n <= nmax; ++n) {
+          if (!guarded([&] {
             long u0 = g_ub;
             auto a = au::inverse_as(Tgt{}, au::make_quantity<U>(static_cast<R>(n)));
             static_assert(std::is_same<decltype(a), au::Quantity<Tgt, R>>::value, "inverse_as unit");
@@ -661,10 +685,11 @@ template <class R, class U, class Tgt> struct InvSweep<R, U, Tgt, true> {
                 if ((long long)back != (long long)n) { if (!bad_rt++) first_rt = std::to_string(n); }
             }
             if (g_ub != u0) ++ub;
+          })) { if (!traps++) first_trap = std::to_string(n); }
             ++n_done;
         }
-        char b[200];
-        snprintf(b, sizeof b, "n=%%ld bad_val=%%ld first_val=%%s bad_rt=%%ld first_rt=%%s ub=%%ld", n_done, bad_val, first_val.c_str(), bad_rt, first_rt.c_str(), ub);
+        char b[260];
+        snprintf(b, sizeof b, "n=%%ld bad_val=%%ld first_val=%%s bad_rt=%%ld first_rt=%%s ub=%%ld traps=%%ld first_trap=%%s", n_done, bad_val, first_val.c_str(), bad_rt, first_rt.c_str(), ub, traps, first_trap.c_str());
         o += b;
     }
 };
@@ -672,14 +697,16 @@ template <class R, class U, class Tgt>
 struct InvImplInst : InvSweep<R, U, Tgt, std::is_integral<R>::value> {
     static void pt(int argc, char** argv, std::string& o) {
         for (int i = 0; i < argc; ++i) {
-            R x = IO<R>::parse(argv[i]);
-            auto q = au::make_quantity<U>(x);
-            long u0 = g_ub;
-            R v = au::inverse_in(Tgt{}, q);
-            auto a = au::inverse_as(Tgt{}, q);
-            static_assert(std::is_same<decltype(a), au::Quantity<Tgt, R>>::value, "inverse_as unit");
-            static_assert(std::is_same<decltype(au::inverse_in(Tgt{}, q)), R>::value, "inverse_in type");
-            putc(o, v); putc(o, same(a.in(Tgt{}), v)); put(o, g_ub - u0); o += " ";
+            token(o, [&] {
+                R x = IO<R>::parse(argv[i]);
+                auto q = au::make_quantity<U>(x);
+                long u0 = g_ub;
+                R v = au::inverse_in(Tgt{}, q);
+                auto a = au::inverse_as(Tgt{}, q);
+                static_assert(std::is_same<decltype(a), au::Quantity<Tgt, R>>::value, "inverse_as unit");
+                static_assert(std::is_same<decltype(au::inverse_in(Tgt{}, q)), R>::value, "inverse_in type");
+                putc(o, v); putc(o, same(a.in(Tgt{}), v)); put(o, g_ub - u0);
+            });
         }
     }
 };
@@ -687,14 +714,16 @@ template <class TR, class R, class U, class Tgt>
 struct InvExplInst {
     static void pt(int argc, char** argv, std::string& o) {
         for (int i = 0; i < argc; ++i) {
-            R x = IO<R>::parse(argv[i]);
-            auto q = au::make_quantity<U>(x);
-            long u0 = g_ub;
-            TR v = au::inverse_in<TR>(Tgt{}, q);
-            auto a = au::inverse_as<TR>(Tgt{}, q);
-            static_assert(std::is_same<decltype(a), au::Quantity<Tgt, TR>>::value, "inverse_as<T> unit");
-            static_assert(std::is_same<decltype(au::inverse_in<TR>(Tgt{}, q)), TR>::value, "inverse_in<T> type");
-            putc(o, v); putc(o, same(a.in(Tgt{}), v) || g_ub != u0); put(o, g_ub - u0); o += " ";
+            token(o, [&] {
+                R x = IO<R>::parse(argv[i]);
+                auto q = au::make_quantity<U>(x);
+                long u0 = g_ub;
+                TR v = au::inverse_in<TR>(Tgt{}, q);
+                auto a = au::inverse_as<TR>(Tgt{}, q);
+                static_assert(std::is_same<decltype(a), au::Quantity<Tgt, TR>>::value, "inverse_as<T> unit");
+                static_assert(std::is_same<decltype(au::inverse_in<TR>(Tgt{}, q)), TR>::value, "inverse_in<T> type");
+                putc(o, v); putc(o, same(a.in(Tgt{}), v) || g_ub != u0); put(o, g_ub - u0);
+            });
         }
     }
     static void sweep(int, char**, std::string& o) { o += "unsupported"; }
@@ -713,7 +742,8 @@ struct TrigInst {
         if (argc < 1) { o += "bad"; return; }
         R x = IO<R>::parse(argv[0]);
         Q q = au::make_quantity<U>(x);
-        putc(o, au::sin(q)); putc(o, au::cos(q)); put(o, au::tan(q));
+        token(o, [&] { putc(o, au::sin(q)); putc(o, au::cos(q)); put(o, au::tan(q)); });
+        o.pop_back();
         for (int i = 1; i < argc; ++i) {
             P a = IO<P>::parse(argv[i]);
             o += " "; putc(o, std::sin(a)); putc(o, std::cos(a)); put(o, std::tan(a));
@@ -761,9 +791,12 @@ struct TwoInst {
         if (argc < 6) { o += "bad"; return; }
         Q1 q1 = au::make_quantity<U1>(IO<R1>::parse(argv[0])); Q2 q2 = au::make_quantity<U2>(IO<R2>::parse(argv[1]));
         FR a1 = IO<FR>::parse(argv[2]), a2 = IO<FR>::parse(argv[3]);
-        putc(o, au::fmod(q1, q2).in(CU{})); putc(o, std::fmod(a1, a2));
-        putc(o, au::remainder(q1, q2).in(CU{})); putc(o, std::remainder(a1, a2));
-        HypPart<R1, U1, R2, U2, Hyp>::run(q1, q2, argv + 4, o);
+        token(o, [&] {
+            putc(o, au::fmod(q1, q2).in(CU{})); putc(o, std::fmod(a1, a2));
+            putc(o, au::remainder(q1, q2).in(CU{})); putc(o, std::remainder(a1, a2));
+            HypPart<R1, U1, R2, U2, Hyp>::run(q1, q2, argv + 4, o);
+        });
+        o.pop_back();
     }
     static void sweep(int, char**, std::string& o) { RatioInfo<U1, U2>::put_info(o); }
 };
@@ -782,9 +815,11 @@ struct MinMaxInst {
     static_assert(std::is_same<decltype(call_min(Q1{}, Q2{})), au::Quantity<CU, CR>>::value, "min unit");
     static void pt(int argc, char** argv, std::string& o) {
         for (int i = 0; i + 1 < argc; i += 2) {
-            Q1 q1 = au::make_quantity<U1>(IO<R1>::parse(argv[i])); Q2 q2 = au::make_quantity<U2>(IO<R2>::parse(argv[i + 1]));
-            long u0 = g_ub;
-            putc(o, call_max(q1, q2).in(CU{})); putc(o, call_min(q1, q2).in(CU{})); put(o, g_ub - u0); o += " ";
+            token(o, [&] {
+                Q1 q1 = au::make_quantity<U1>(IO<R1>::parse(argv[i])); Q2 q2 = au::make_quantity<U2>(IO<R2>::parse(argv[i + 1]));
+                long u0 = g_ub;
+                putc(o, call_max(q1, q2).in(CU{})); putc(o, call_min(q1, q2).in(CU{})); put(o, g_ub - u0);
+            });
         }
     }
     static void sweep(int, char**, std::string& o) { RatioInfo<U1, U2>::put_info(o); }
@@ -796,10 +831,12 @@ struct ClampInst {
     static_assert(std::is_same<decltype(call_clamp(QV{}, QL{}, QH{})), au::Quantity<CU, CR>>::value, "clamp unit");
     static void pt(int argc, char** argv, std::string& o) {
         for (int i = 0; i + 2 < argc; i += 3) {
-            QV v = au::make_quantity<UV>(IO<RV>::parse(argv[i])); QL l = au::make_quantity<UL>(IO<RL>::parse(argv[i + 1]));
-            QH h = au::make_quantity<UH>(IO<RH>::parse(argv[i + 2]));
-            long u0 = g_ub;
-            putc(o, call_clamp(v, l, h).in(CU{})); put(o, g_ub - u0); o += " ";
+            token(o, [&] {
+                QV v = au::make_quantity<UV>(IO<RV>::parse(argv[i])); QL l = au::make_quantity<UL>(IO<RL>::parse(argv[i + 1]));
+                QH h = au::make_quantity<UH>(IO<RH>::parse(argv[i + 2]));
+                long u0 = g_ub;
+                putc(o, call_clamp(v, l, h).in(CU{})); put(o, g_ub - u0);
+            });
         }
     }
     static void sweep(int, char**, std::string& o) {
@@ -825,17 +862,19 @@ struct UnaryInst {
     static_assert(std::is_same<decltype(au::isnan(Q{})), bool>::value, "isnan type");
     static void pt(int argc, char** argv, std::string& o) {
         for (int i = 0; i + 1 < argc; i += 2) {
-            R x = IO<R>::parse(argv[i]); double s = IO<double>::parse(argv[i + 1]);
-            Q q = au::make_quantity<U>(x);
-            long u0 = g_ub;
-            putc(o, au::abs(q).in(U{})); putc(o, std::abs(x));
-            putc(o, au::copysign(q, s).in(U{})); putc(o, std::copysign(x, s));
-            putc(o, au::copysign(s, q)); putc(o, std::copysign(s, x));
-            R sr = static_cast<R>(s < 0 ? -1 : 1);
-            putc(o, au::copysign(q, au::make_quantity<U>(sr)).in(U{})); putc(o, std::copysign(x, sr));
-            putc(o, au::isnan(q)); putc(o, bool(std::isnan(x)));
-            putc(o, au::isnan(au::make_quantity_point<U>(x)));
-            put(o, g_ub - u0); o += " ";
+            token(o, [&] {
+                R x = IO<R>::parse(argv[i]); double s = IO<double>::parse(argv[i + 1]);
+                Q q = au::make_quantity<U>(x);
+                long u0 = g_ub;
+                putc(o, au::abs(q).in(U{})); putc(o, std::abs(x));
+                putc(o, au::copysign(q, s).in(U{})); putc(o, std::copysign(x, s));
+                putc(o, au::copysign(s, q)); putc(o, std::copysign(s, x));
+                R sr = static_cast<R>(s < 0 ? -1 : 1);
+                putc(o, au::copysign(q, au::make_quantity<U>(sr)).in(U{})); putc(o, std::copysign(x, sr));
+                putc(o, au::isnan(q)); putc(o, bool(std::isnan(x)));
+                putc(o, au::isnan(au::make_quantity_point<U>(x)));
+                put(o, g_ub - u0);
+            });
         }
     }
     static void sweep(int, char**, std::string& o) { o += "unsupported"; }
@@ -851,11 +890,13 @@ struct ArcInst {
     static_assert(std::is_same<decltype(au::arctan2(T{}, T{})), au::Quantity<au::Radians, P>>::value, "arctan2 unit");
     static void pt(int argc, char** argv, std::string& o) {
         for (int i = 0; i + 1 < argc; i += 2) {
-            T y = IO<T>::parse(argv[i]), x = IO<T>::parse(argv[i + 1]);
-            putc(o, au::arcsin(y).in(au::Radians{})); putc(o, std::asin(y));
-            putc(o, au::arccos(y).in(au::Radians{})); putc(o, std::acos(y));
-            putc(o, au::arctan(y).in(au::Radians{})); putc(o, std::atan(y));
-            putc(o, au::arctan2(y, x).in(au::Radians{})); put(o, std::atan2(y, x)); o += " ";
+            token(o, [&] {
+                T y = IO<T>::parse(argv[i]), x = IO<T>::parse(argv[i + 1]);
+                putc(o, au::arcsin(y).in(au::Radians{})); putc(o, std::asin(y));
+                putc(o, au::arccos(y).in(au::Radians{})); putc(o, std::acos(y));
+                putc(o, au::arctan(y).in(au::Radians{})); putc(o, std::atan(y));
+                putc(o, au::arctan2(y, x).in(au::Radians{})); put(o, std::atan2(y, x));
+            });
         }
     }
     static void sweep(int, char**, std::string& o) { o += "unsupported"; }
@@ -870,12 +911,15 @@ struct NullInst {
 HARNESS_MAIN = r'''
 extern const Entry* const chunks[]; extern const int chunk_sizes[]; extern const int n_chunks;
 volatile long g_ub = 0;
+sigjmp_buf g_jb; volatile sig_atomic_t g_in = 0; volatile long g_traps = 0;
 extern "C" void __ubsan_on_report(void) { g_ub = g_ub + 1; }
+static void on_trap(int sig) { if (g_in) siglongjmp(g_jb, sig); _exit(97); }
 static const Entry* find(int id) {
     for (int c = 0; c < n_chunks; ++c) for (int i = 0; i < chunk_sizes[c]; ++i) if (chunks[c][i].id == id) return &chunks[c][i];
     return nullptr;
 }
 int main() {
+    signal(SIGFPE, on_trap); signal(SIGILL, on_trap); signal(SIGSEGV, on_trap); signal(SIGBUS, on_trap);
     static char line[1 << 22];
     std::string out;
     while (fgets(line, sizeof line, stdin)) {
